@@ -2,7 +2,7 @@
 from vlib.core import Case
 
 ID = "C35"
-COMPONENTS = ["cse", "s_epshard"]
+COMPONENTS = ["cse", "s_epshard", "wagg"]
 T4 = ["LbConnState"]
 PROOF_MODULES = ["GrpcProofs.Properties.C35"]
 THEOREMS = ["GrpcProofs.C35." + t for t in (
@@ -10,16 +10,20 @@ THEOREMS = ["GrpcProofs.C35." + t for t in (
     "cse_underflow_counterexample",
     "epshard_aggregate_precedence", "epshard_every_push_ok", "epshard_channel_view_current",
     "picker_only_delegates_to_children_in_aggregate_state",
-    "rr_fair_partial", "rr_fair_children_partial", "rr_wrap_counterexample")]
+    "rr_fair_partial", "rr_fair_children_partial", "rr_wrap_counterexample",
+    "wagg_counters_track_children", "wagg_aggregate_precedence")]
 DESIGN_REF = "DESIGN.md section 8, C35"
 TECHNIQUE = ("Lean 4 theorems (list induction over transition histories, BitVec 64 counter arithmetic, closed-form residue "
              "counting for round robin) + T1/T2 differential correspondence against the real ConnectivityStateEvaluator and the "
-             "real endpointsharding balancer (stub children, recording ClientConn, pinned randIntN) + T4 regenerated state order")
+             "real endpointsharding balancer (stub children, recording ClientConn, pinned randIntN) and the real weighted_target "
+             "aggregator (recording ClientConn and WRR, counters read through a shim) + T4 regenerated state order")
 LEVEL_TEXT = ("Machine-checked Lean proofs, for every history of child additions/transitions/removals and every child multiset, that "
               "the evaluator's counters equal the multiset counts (mod 2^64) and its answer is the precedence-rule state; for every "
               "op sequence of the endpointsharding model that every pushed state follows the rule, its picker holds exactly the "
               "children in the aggregate state, every Pick delegates to one of them, and k consecutive picks not crossing the "
-              "uint32 index wrap give each child floor(k/n) or ceil(k/n); the wrap counterexample (F8) is proved and replayed.")
+              "uint32 index wrap give each child floor(k/n) or ceil(k/n); the wrap counterexample (F8) is proved and replayed; for "
+              "every history of weighted_target's aggregator (Add/Remove/UpdateState/UpdateWeight/Pause/Resume) that its evaluator's "
+              "counters equal the counts of the children's counted states and every state it reports is their precedence-rule state.")
 LEVEL_NOTE = ("Trusted: Lean kernel; hand models lean/GrpcModel/Model/{LbConnState,EpShard}.lean tied by differential runs. "
               "Readings: (1) 'children' of ConnectivityStateEvaluator are what its caller passes: the theorem is for legal histories "
               "(the evaluator is told each child's real previous state); an illegal call underflows a counter "
@@ -30,15 +34,18 @@ LEVEL_NOTE = ("Trusted: Lean kernel; hand models lean/GrpcModel/Model/{LbConnSta
               "and is not claimed here; it uses the same evaluator, covered by `cse`.")
 GAP = ("goroutine scheduling of `go es.exitIdle()` (joined with synctest.Wait, calls compared as a sorted set); concurrent child "
        "UpdateState during a top-down call (serialised by es.mu; only the synchronous-report interleaving is generated); "
-       "weightedtarget/balancergroup wiring")
+       "balancergroup wiring above the aggregator; clustermanager's own copy of the aggregator")
 ASSUMPTIONS = ["fewer than 2^64 children (counter wrap)", "child identities: one stub child per endpoint key, endpoints with one address",
                "randIntN(n) pinned to r % n by the harness"]
 RULE = ("cse: random legal histories (add/change/remove over a child list, <= 80 ops) with every answer checked against the "
         "precedence rule, plus raw RecordTransition streams incl. illegal ones (counters compared with the model). s_epshard: "
         "random op sequences (<= 40 ops) of resolver updates (0-6 endpoints out of 7, duplicates, children that report "
         "R/C/I/T/S or nothing during the update, child errors), child state reports (also from removed children), "
-        "ResolverError, ExitIdle, Close, runs of Pick (0..3n+2) and index-wrap picks (start index near 2^32). A case is "
-        "non-trivial when it pushed a state with >= 2 children or picked.")
+        "ResolverError, ExitIdle, Close, runs of Pick (0..3n+2) and index-wrap picks (start index near 2^32). wagg: a directed "
+        "family over every way a child's counted state can differ from its reported one (TF->C, TF->C->C, R->TF->C, ...) x what "
+        "happens to it next (removed, new state, re-weighted) x the state of the other children (T/I/C/none), plus random "
+        "histories (<= 40 ops, 2-6 ids) biased to the retry cycle TF->CONNECTING with adds/removes/weights/pause/resume; counters "
+        "compared with the model after every op. A case is non-trivial when it pushed a state with >= 2 children or picked.")
 
 STATES = "RCIT"
 WRAP = 2 ** 32
@@ -111,6 +118,66 @@ def gen_ep(rng, n_cases, maxlen, wrap_rate):
         yield Case("s_epshard", ops, "ep-%d" % ci)
 
 
+def gen_wagg(rng, n_cases, maxlen):
+    """weighted_target aggregator: children added/removed/re-weighted, state reports biased to the retry cycle
+    TF -> CONNECTING (where the counted state differs from the reported one), pause/resume."""
+    for ci in range(n_cases):
+        ops = ["start"] if rng.random() < 0.95 else []
+        ids = list(range(1, rng.choice([2, 3, 3, 4, 6]) + 1))
+        present = []
+        last = {}
+        bias = rng.choice(["TCIR", "TTCC", "TCTC", "ITC", "RTC", "TCIRS"])
+        for _ in range(rng.randrange(3, maxlen)):
+            x = rng.random()
+            absent = [i for i in ids if i not in present]
+            if (not present or x < 0.15) and absent:
+                i = rng.choice(absent); present.append(i); last[i] = "C"
+                ops.append("add %d %d" % (i, rng.randrange(0, 5)))
+            elif x < 0.30 and present:
+                i = rng.choice(present); present.remove(i)
+                ops.append("remove %d" % i)
+            elif x < 0.80 and present:
+                i = rng.choice(present)
+                # a failing child retries: TF is mostly followed by CONNECTING
+                st = "C" if last.get(i) == "T" and rng.random() < 0.6 else rng.choice(bias)
+                last[i] = st
+                ops.append("upd %d %s" % (i, st))
+            elif x < 0.84:
+                ops.append("weight %d %d" % (rng.choice(ids), rng.randrange(0, 5)))
+            elif x < 0.88:
+                ops.append("pause")
+            elif x < 0.93:
+                ops.append("resume")
+            elif x < 0.95:
+                ops.append("need")
+            elif x < 0.97:
+                ops.append("upd %d %s" % (rng.choice(ids), rng.choice("RCIT")))   # also ids that are not present
+            elif x < 0.98 and not ops[0:1] == ["start"]:
+                ops.append("start")
+            elif x < 0.985:
+                ops.append("stop"); break
+        yield Case("wagg", ops, "wagg-%d" % ci)
+
+
+def wagg_directed():
+    # every way a child's counted state can differ from its reported one when it is removed / changes state, followed
+    # by the remaining children being in each non-READY state (and by no children at all)
+    k = 0
+    for pre in (["upd 1 T", "upd 1 C"], ["upd 1 T", "upd 1 C", "upd 1 C"], ["upd 1 R", "upd 1 T", "upd 1 C"],
+                ["upd 1 T"], ["upd 1 C"], ["upd 1 I"], ["upd 1 R"], []):
+        for then in (["remove 1"], ["upd 1 I"], ["upd 1 T"], ["upd 1 R", "remove 1"], ["weight 1 3", "remove 1"]):
+            for others in ("T", "I", "C", None):
+                ops = ["start", "add 1 1"]
+                if others:
+                    ops += ["add 2 1", "upd 2 %s" % others]
+                ops += pre + then
+                if others:
+                    ops += ["upd 2 %s" % others, "remove 2"]
+                ops += ["add 3 2", "upd 3 T", "remove 3"]
+                yield Case("wagg", ops, "wagg-directed-%d" % k)
+                k += 1
+
+
 def directed():
     # F8 witness (DESIGN.md section 7): n = 3, index 2^32-3, three picks
     yield Case("s_epshard", ["new 1", "update 0 0/R/0,1/R/0,2/R/0", "wrappick %d 3" % (WRAP - 3)], "f8-witness")
@@ -131,6 +198,10 @@ def gen(rng, tier):
     n_cse, n_ep, ml = {"quick": (300, 500, 30), "thorough": (5000, 9000, 45), "search": (3000, 6000, 45)}[tier]
     for c in directed():
         yield c
+    for c in wagg_directed():
+        yield c
+    for c in gen_wagg(rng, {"quick": 400, "thorough": 8000, "search": 4000}[tier], 40):
+        yield c
     for c in gen_cse(rng, n_cse, 80):
         yield c
     for c in gen_ep(rng, n_ep, ml, 0.06):
@@ -140,6 +211,8 @@ def gen(rng, tier):
 def nontrivial(case, impl_lines):
     if case.component == "cse":
         return len(case.ops) >= 3
+    if case.component == "wagg":
+        return sum(1 for l in impl_lines if not l.startswith("-") and l != "bad-op") >= 2
     for l in impl_lines:
         if l.startswith("picks=") and l != "picks=-":
             return True
